@@ -290,7 +290,9 @@ func getProxyRequest(clientConn transport.StreamConn) (string, error) {
 	return tgtAddr.String(), nil
 }
 
-func proxyConnection(l *slog.Logger, ctx context.Context, dialer transport.StreamDialer, tgtAddr string, clientConn transport.StreamConn) *onet.ConnectionError {
+// proxyConnection relays between `clientConn` and the target. `rawClientConn` is the connection
+// underneath `clientConn`'s decryption; it is only used to drain the client after a relay error.
+func proxyConnection(l *slog.Logger, ctx context.Context, dialer transport.StreamDialer, tgtAddr string, clientConn transport.StreamConn, rawClientConn io.Reader) *onet.ConnectionError {
 	tgtConn, dialErr := dialer.DialStream(ctx, tgtAddr)
 	if dialErr != nil {
 		// We don't drain so dial errors and invalid addresses are communicated quickly.
@@ -303,8 +305,11 @@ func proxyConnection(l *slog.Logger, ctx context.Context, dialer transport.Strea
 	go func() {
 		_, fromClientErr := io.Copy(tgtConn, clientConn)
 		if fromClientErr != nil {
-			// Drain to prevent a close in the case of a cipher error.
-			io.Copy(io.Discard, clientConn)
+			// Drain to prevent a close in the case of a cipher error. This must read the
+			// raw connection: after a chunk fails to authenticate, the decrypting reader
+			// fails again on the next bytes that arrive, which would end the drain (and
+			// close the connection) right away.
+			io.Copy(io.Discard, rawClientConn)
 		}
 		clientConn.CloseRead()
 		// Send FIN to target.
@@ -365,7 +370,7 @@ func (h *streamHandler) handleConnection(ctx context.Context, outerConn transpor
 		tgtConn = metrics.MeasureConn(tgtConn, &proxyMetrics.ProxyTarget, &proxyMetrics.TargetProxy)
 		return tgtConn, nil
 	})
-	return proxyConnection(h.logger, ctx, dialer, tgtAddr, innerConn)
+	return proxyConnection(h.logger, ctx, dialer, tgtAddr, innerConn, outerConn)
 }
 
 // Keep the connection open until we hit the authentication deadline to protect against probing attacks
